@@ -8,16 +8,26 @@
      transports, one tools/call per case; records what the handler saw and what the client received.
   3. TLC on spec/TypedToolMon.tla judges every recorded outcome (verdict) and compares it with the
      code-shaped expectation (drift).
+  4. Interleaving dimension: TLC on spec/TypedToolConc.tla (state machine invoke / produce / respond of N calls in
+     flight on one server; invariants PerCallOutput / NonInterference; the what-if TypedToolConcAlias.cfg - results that
+     refer to a shared scratch cell - MUST fail PerCallOutput, which shows that the schedule family discriminates)
+     exports every complete schedule; TypedTool.tla exports the pool of cases (ConcOut / ConcIn / Conc3). Scenario =
+     (ordered tuple of pool cases, schedule). The harness replays each scenario with gates inside a synctest bubble
+     (GOMAXPROCS(1): nothing but the gates decides the order; thorough also with the default), one observation line per
+     call, judged by the same monitor clauses against the call's OWN case.
 quick: all output, reflected-type, struct-with-explicit-schema and default-interaction cases (every
 SchemaCache arrangement), every valid explicit-schema case,
 every boundary case (<=1 member off the valid base, or <=1 member present) and a seeded sample of the
-rest; thorough: the complete family.
+rest; thorough: the complete family.  Concurrent scenarios: quick = all 2-call schedules x all ordered pairs with a
+non-object output on both sides (+ a seeded sample of the other pairs); thorough = all pairs x all 2-call
+schedules (GOMAXPROCS 1 and default) + Conc3^3 x all 3-call schedules.
 """
 import json, os, random
 import vlib
 
 PID = "C16"
 QUICK_SAMPLE = 3000
+CONC_QUICK_REST = 150  # quick: seeded sample of the ordered pairs with an object output or an input case on some side
 
 # the "base" (valid) class of each member; a case's deviation count is the number of members off base
 BASE = {"in": ("min", "member", "absent", "absent", "absent"),
@@ -78,6 +88,81 @@ def out_sig(c, o):
         ",own-content" if c["content"] else "", got)
 
 
+def case_short(c):
+    """one pool case in a few characters (signatures, reports)"""
+    if c["kind"] == "out":
+        tool = "rout.%s" % c["okind"] if c["sid"] == "reflect" else "out.%s.%s" % (c["sid"], c["okind"])
+        return "%s=%s%s%s" % (tool, jtext(c["out"]), ",nil" if c["nilform"] else "", ",own-content" if c["content"] else "")
+    return "%s.%s(%s)" % (c["kind"], c["vid"], "/".join(c["cls"]))
+
+
+def is_nonobj_out(c):
+    return c["kind"] == "out" and c["out"][0] != "obj"
+
+
+def conc_context(scn, who):
+    """(window, before): the steps of the other calls of the scenario inside the window of call `who` (between its
+    produce and its respond step), and between its invoke and its produce step"""
+    sched = [tuple(x) for x in scn["sched"]]
+    p, r, i = sched.index(("produce", who)), sched.index(("respond", who)), sched.index(("invoke", who))
+    win = sorted({st for st, w in sched[p + 1:r] if w != who})
+    pre = sorted({st for st, w in sched[i + 1:p] if w != who})
+    return "window=%s" % ("+".join(win) or "none"), "before=%s" % ("+".join(pre) or "none")
+
+
+def has_overlap(scn):
+    """some call's produce step falls between another call's produce and respond steps"""
+    sched = [tuple(x) for x in scn["sched"]]
+    for w in scn["calls"]:
+        p, r = sched.index(("produce", w)), sched.index(("respond", w))
+        if any(st == "produce" and w2 != w for st, w2 in sched[p + 1:r]):
+            return True
+    return False
+
+
+JTYPE = {"obj": "object", "arr": "array", "str": "string", "int": "integer", "half": "number", "bool": "boolean", "null": "null"}
+
+
+def case_class(c):
+    """the abstract class of a pool case: tool, JSON type of the handler output, validity"""
+    if c["kind"] == "out":
+        tool = "rout.%s" % c["okind"] if c["sid"] == "reflect" else "out.%s.%s" % (c["sid"], c["okind"])
+        return "%s:out=%s%s%s,%s" % (tool, JTYPE[c["out"][0]], ",nil" if c["nilform"] else "", ",own-content" if c["content"] else "",
+                                     "valid" if c["valid"] else "invalid")
+    return "%s.%s:args=%s" % (c["kind"], c["vid"], "valid" if c["valid"] else "invalid")
+
+
+def conc_sig(scn, who, c, o):
+    """the abstract failing case of a call in a concurrent scenario: its own class and outcome, the steps of other calls
+    inside its produce..respond window (and before it, while in flight), the classes of the other calls' outputs"""
+    if c["kind"] == "out":
+        got = "proto-error" if o["proto"] else ("error-result" if o["isError"] else
+                                                ("success+structured" if o["hasSc"] else "success-unstructured"))
+    else:
+        got = "ran" if o["ran"] else ("proto-error" if o["proto"] else ("error-result" if o["isError"] else "success-not-run"))
+        if o["ran"] and (o["isError"] or o["proto"]):
+            got = "ran+error"
+    if o.get("fail"):
+        got = "no-answer(%s)" % o["fail"].split(":")[0]
+    others = sorted({("out/" + JTYPE[x["out"][0]]) if x["kind"] == "out" else "in"
+                     for w, x in scn["calls"].items() if w != who})
+    return "conc[%d]:%s:%s:%s:others=%s" % (len(scn["calls"]), case_class(c), got, conc_context(scn, who)[0], "+".join(others))
+
+
+def check_pinned(scn, who, o):
+    """machinery: the replay followed the schedule (the events of the call happened during the steps they belong to)"""
+    sched = [tuple(x) for x in scn["sched"]]
+    at = o.get("at") or {}
+    inv, pro, res = sched.index(("invoke", who)), sched.index(("produce", who)), sched.index(("respond", who))
+    want = {"enter": inv, "produced": pro, "got": res} if o["ran"] else {"produced": inv, "got": res}
+    if o.get("fail"):
+        want.pop("got", None)  # no answer: reported by the monitor, not a matter of pinning
+        at = {k: v for k, v in at.items() if k != "got"}
+        if "produced" not in at:
+            want.pop("produced", None)
+    return at == want, at, want
+
+
 def norm_schema(s):
     """normal form for comparing an advertised schema with the TLC-exported expectation"""
     if isinstance(s, dict):
@@ -115,6 +200,11 @@ def run(tier, seed, replay):
         "filling the cache), nil slice = null; "
         "for struct inputs an optional member that is null is the same as an absent one",
         "integers are sent in seeded spellings (3, 3.0, 3e0, 30e-1) and member orders",
+        "interleavings: N calls in flight on one server and one session (in-memory transport), each cut into the steps invoke / "
+        "produce / respond of TypedToolConc.tla; the steps are pinned by a gate in the handler and a gate in a receiving middleware "
+        "after next() inside a synctest bubble (synctest.Wait after every step; GOMAXPROCS(1), thorough also the default), calls are "
+        "tagged through _meta; interleavings INSIDE a step (e.g. between marshalling and validating one output) are not enumerated; "
+        "a call without an answer after all steps is read as a failed (not successful) call",
     ]
     out = vlib.outdir(PID)
     for f in os.listdir(out):  # violation files of earlier runs would be mistaken for this run's
@@ -159,8 +249,69 @@ def run(tier, seed, replay):
         rule = ("all output cases, all valid input cases, all boundary cases (at most one member off the valid base, or at most one "
                 "member present), all cases of the other kinds (defaults interacting with other keywords, reflected Go types, "
                 "explicit schemas on struct types, every SchemaCache arrangement), plus %d seeded samples of the remaining product" % min(QUICK_SAMPLE, len(rest)))
+    # ---- interleaving dimension: schedules from the state machine, cases from the pool
+    pool = [r["case"] for r in allrows if r["kind"] == "concpool"]
+    pool3 = [r["case"] for r in allrows if r["kind"] == "concpool" and r["three"]]
+    if len(pool) != counts["concpool"] or len(pool3) != counts["concpool3"]:
+        raise vlib.MachineryError("export has %d/%d pool cases, TLC counted %d/%d" % (len(pool), len(pool3), counts["concpool"], counts["concpool3"]))
+
+    def schedules(cfg, n):
+        sres = vlib.run_tlc("TypedToolConc", cfg, workers=1, timeout=300, heap_gb=2, extra_args=("-noGenerateSpecTE",))
+        vlib.tlc_must_pass(sres, cfg)
+        if not sres.ok:
+            raise vlib.MachineryError("%s: design check failed: %s" % (cfg, sres.violation or sres.stdout[-2000:]))
+        v.add_tlc("TypedToolConc(%s: PerCallOutput, NonInterference; export of complete schedules)" % cfg, sres)
+        sch = [p for p in sres.printed if isinstance(p, dict) and p.get("n") == n and "sched" in p]
+        if not sch or not any(p["sequential"] for p in sch) or not all(any(p["overlapped"][i] > 0 for p in sch) for i in range(n)):
+            raise vlib.MachineryError("%s: schedule export is vacuous (%d schedules)" % (cfg, len(sch)))
+        return sch
+
+    sched2 = schedules("TypedToolConc.cfg", 2)
+    ares = vlib.run_tlc("TypedToolConc", "TypedToolConcAlias.cfg", workers=1, timeout=300, heap_gb=2, extra_args=("-noGenerateSpecTE",))
+    vlib.tlc_must_pass(ares, "TypedToolConcAlias")
+    if ares.violation != "PerCallOutput":
+        raise vlib.MachineryError("what-if TypedToolConcAlias.cfg (shared scratch cell) must violate PerCallOutput; got %s" % (ares.violation or "no violation"))
+    sched3 = schedules("TypedToolConc3.cfg", 3) if (tier == "thorough" and not replay) else []
+    scenarios = []
+
+    def add_scn(cases_, sch, procs):
+        names = "ABC"[:len(cases_)]
+        scenarios.append({"kind": "conc", "scn": len(scenarios) + 1, "procs": procs, "sched": sch["sched"],
+                          "calls": {names[i]: cases_[i] for i in range(len(cases_))}})
+
+    if replay:
+        if rep["replay"].get("scenario"):
+            chosen = []
+            scenarios = [dict(rep["replay"]["scenario"], scn=1)]
+            rule = "replay of one recorded concurrent scenario"
+        conc_rule = rule
+    else:
+        pairs = [(a, b) for a in pool for b in pool]
+        if tier == "thorough":
+            for procs in (1, 0):
+                for a, b in pairs:
+                    for sch in sched2:
+                        add_scn((a, b), sch, procs)
+            for a in pool3:
+                for b in pool3:
+                    for c3 in pool3:
+                        for sch in sched3:
+                            add_scn((a, b, c3), sch, 1)
+            conc_rule = ("concurrent scenarios: ConcPool^2 (%d ordered pairs) x all %d schedules of 2 calls, with GOMAXPROCS 1 and default; "
+                         "Conc3^3 (%d triples) x all %d schedules of 3 calls" % (len(pairs), len(sched2), len(pool3) ** 3, len(sched3)))
+        else:
+            rnd2 = random.Random(seed * 7919 + 16)
+            core2 = [pr for pr in pairs if is_nonobj_out(pr[0]) and is_nonobj_out(pr[1])]
+            rest2 = [pr for pr in pairs if not (is_nonobj_out(pr[0]) and is_nonobj_out(pr[1]))]
+            pick2 = core2 + rnd2.sample(rest2, min(CONC_QUICK_REST, len(rest2)))
+            for a, b in pick2:
+                for sch in sched2:
+                    add_scn((a, b), sch, 1)
+            conc_rule = ("concurrent scenarios: all %d schedules of 2 calls x every ordered pair of ConcPool with non-object outputs on "
+                         "both sides (%d pairs) + %d seeded other pairs (object outputs, input cases), GOMAXPROCS 1" % (len(sched2), len(core2), len(pick2) - len(core2)))
+    ncalls = sum(len(sc["calls"]) for sc in scenarios)
     cin = os.path.join(out, "cases.ndjson")
-    vlib.write_ndjson(cin, schemas + chosen)
+    vlib.write_ndjson(cin, schemas + chosen + scenarios)
 
     # ---- real code
     obs = os.path.join(out, "obs.ndjson")
@@ -178,8 +329,22 @@ def run(tier, seed, replay):
             return v.finish()
         raise vlib.MachineryError("C16 harness failed:\n" + gout[-3000:])
     rows = vlib.read_ndjson(obs)
-    if len(rows) != len(chosen):
-        raise vlib.MachineryError("harness ran %d of %d cases" % (len(rows), len(chosen)))
+    if len(rows) != len(chosen) + ncalls:
+        raise vlib.MachineryError("harness ran %d of %d cases" % (len(rows), len(chosen) + ncalls))
+    # the calls of the concurrent scenarios: rows after the sequential ones, scenario by scenario, calls in name order
+    scn_of = {}
+    k = len(chosen)
+    for scn in scenarios:
+        for who in sorted(scn["calls"]):
+            e = rows[k]
+            if e["c"].get("scn") != scn["scn"] or e["c"].get("who") != who:
+                raise vlib.MachineryError("row %d is not call %s of scenario %d" % (k + 1, who, scn["scn"]))
+            ok, at, want = check_pinned(scn, who, e["o"])
+            if not ok:
+                raise vlib.MachineryError("scenario %d (%s): the replay of call %s did not follow the schedule %s: events at %s, expected %s"
+                                          % (scn["scn"], case_short(scn["calls"][who]), who, scn["sched"], at, want))
+            scn_of[k + 1] = (scn, who)
+            k += 1
 
     # ---- binding of the reflected family: advertised schema == TypedToolDefs!GoInSchema / GoOutSchema
     adv = json.load(open(obs + ".adv"))
@@ -204,7 +369,12 @@ def run(tier, seed, replay):
     v.cov["evaluations"] = len(rows)
     v.cov["distinct_nontrivial"] = len({json.dumps(r["c"], sort_keys=True) for r in rows
                                         if r["c"]["kind"] == "out" or r["o"]["ran"] or deviations(r["c"]) <= 2})
-    v.cov["rule"] = rule + "; non-trivial = output case, handler ran, or at most two members off the valid base"
+    v.cov["rule"] = rule + "; non-trivial = output case, handler ran, or at most two members off the valid base; " + conc_rule
+    v.cov["concurrent"] = {"pool": len(pool), "pool3": len(pool3), "schedules_2_calls": len(sched2), "schedules_3_calls": len(sched3),
+                           "scenarios": len(scenarios), "calls": ncalls,
+                           "scenarios_with_overlap": sum(1 for sc in scenarios if has_overlap(sc)),
+                           "calls_without_answer": sum(1 for r in rows[len(chosen):] if r["o"].get("fail")),
+                           "whatif_shared_scratch": "violates PerCallOutput (as required)"}
     v.cov["exhaustive"] = exhaustive
     v.cov["family"] = counts
     v.cov["handler_ran"] = sum(1 for r in rows if r["o"]["ran"])
@@ -224,6 +394,10 @@ def run(tier, seed, replay):
         c, o = e["c"], e["o"]
         props = [i for i in invs if i != "drift"]
         sig = out_sig(c, o) if c["kind"] == "out" else in_sig(c, o)
+        if line in scn_of:
+            scn, who = scn_of[line]
+            sig = conc_sig(scn, who, c, o)
+            e = {"c": c, "o": o, "scenario": scn}
         if "drift" in invs:
             v.drift.append("outcome differs from the code-shaped expectation: " + sig)
         if not props:
